@@ -1,5 +1,6 @@
 import Mkts.Proto
 import Mkts.Model.Catalog
+import Mkts.Model.CatalogTie
 /-!
 Driver for the `cat` op (C17): one line = a scenario against one server instance
 (`cat <nowYear> <step> …`, Go side: go/harness/catalog_ops.go):
@@ -14,7 +15,7 @@ Mutating steps append `/1` or `/0`: is the catalog consistent with the disk afte
 directMap view = tree view for every 3-item key of the scenario).  Last token `P=1` iff all were.
 -/
 namespace Mkts.Driver.Catalog
-open Mkts.Proto Mkts.Catalog
+open Mkts.Proto Mkts.Catalog Mkts.CatalogTie
 
 def sortS (l : List String) : List String := l.mergeSort (fun a b => !(decide (b < a)))
 
@@ -98,14 +99,13 @@ def stepKeys : Step → List Path
   | .years p => [p]
   | _ => []
 
-/-- hypotheses of `C17_partial` that are false for an operation (`key3`) / its result (`midway`) -/
-def opHyps (o : Mkts.Catalog.Op) (r : Res) : List String :=
-  (match o with
-   | .create items _ _ => if items.length == 3 then [] else ["key_not_3_items"]
-   | .write items _ _ => if items.length == 3 then [] else ["key_not_3_items"]
-   | .destroy items => if items.length == 3 then [] else ["prefix_destroy"]
-   | .restart => []) ++
-  (if r == .catMismatch || r == .panicIndex || r == .notInCatalog then ["create_failed_midway"] else [])
+/-- hypothesis of `C17_code` that is false for an operation: the key space of the property is
+    three-item bucket keys for Create / Write (other depths are other directory layouts) -/
+def opHyps (o : Mkts.Catalog.Op) : List String :=
+  match o with
+  | .create items _ _ => if items.length == 3 then [] else ["key_depth_outside_model"]
+  | .write items _ _ => if items.length == 3 then [] else ["key_depth_outside_model"]
+  | _ => []
 
 def runSteps (nowYear : Int) (keys : List Path) :
     List Step → St → Bool × List String → List String → List String × Bool × List String
@@ -113,9 +113,9 @@ def runSteps (nowYear : Int) (keys : List Path) :
   | stp :: rest, st, allc, acc =>
     match stp with
     | .op tag o =>
-      let r := step nowYear st o
+      let r := step codeVariant nowYear st o
       let c := consistent r.1 keys
-      runSteps nowYear keys rest r.1 (allc.1 && c, allc.2 ++ opHyps o r.2)
+      runSteps nowYear keys rest r.1 (allc.1 && c, allc.2 ++ opHyps o)
         ((tag ++ "=" ++ r.2.str ++ "/" ++ (if c then "1" else "0")) :: acc)
     | .info p =>
       let out := match info st p with
